@@ -8,7 +8,7 @@ reloaded from the choice point BEFORE the first liveness test. Not the answer se
 """
 import re
 
-from .core import AnchorLost, CFG, callee_of, hir_calls, matches_in, pat_leaves, res_name, short, walk
+from .core import AnchorLost, CFG, callee_of, hir_calls, matches_in, pat_leaves, pat_variant, res_name, short, walk
 from . import repo
 
 EXPLANATION = (
@@ -20,6 +20,7 @@ EXPLANATION = (
 )
 ASSUMPTIONS = ["a clause born at tick t is stamped t and the clock then moves to t+1; a first call captures cc = global_clock"]
 
+PREPEND_FINDING_KEY = "C09:dynamic-index:prepend-shifts-saved-positions"
 LIVE_RX = re.compile(r"Machine>?::find_living_dynamic(_else)?$")
 
 
@@ -311,3 +312,23 @@ def run(ctx, R):
                 saved = True
         R.ob("C09:cc-saved-with-choice-point:%s" % name, saved,
              "the handler must store cc in registers[num_of_args+1], bump num_of_args around try_me_else/indexed_try, and restore it", where)
+
+    # ---- R4: a call iterating the clauses of one first-argument key holds a *position* in that key's clause sequence
+    # (the inner index pointer saved with its choice point). The sequence may therefore only grow at the back while such
+    # a call can be alive: an insertion at the front shifts every saved position
+    ex = [p for p, it in F.items.items() if p.endswith("::extend_indexed_choice") and it["file"] == "src/indexing.rs"]
+    if len(ex) != 1:
+        raise AnchorLost("indexing.rs extend_indexed_choice: %s" % ex)
+    eh = F.hir(ex[0])
+    dyn_arms = []
+    for m in matches_in(eh["body"], src=None):
+        for arm in m["arms"]:
+            if any((pat_variant(q) or "").endswith("IndexingLine::DynamicIndexedChoice") for q in pat_leaves(arm["pat"])):
+                dyn_arms.append(arm)
+    if not dyn_arms:
+        raise AnchorLost("extend_indexed_choice: no arm for IndexingLine::DynamicIndexedChoice")
+    fronts = [n for a in dyn_arms for _, r, n in hir_calls(a["body"]) if re.search(r"VecDeque::<.*>::push_front$|VecDeque<.*>::push_front$", r)]
+    R.ob(PREPEND_FINDING_KEY, not fronts,
+         "extend_indexed_choice inserts at the FRONT of a DynamicIndexedChoice sequence (asserta/1 on a key that already has clauses), but a call that is iterating the "
+         "sequence remembers its place as an index from the front: after asserta the saved index points one clause back. q(a,1). q(a,2). "
+         "?- findall(X, (q(a,X), (X==1, \\+ q(a,0) -> asserta(q(a,0)) ; true)), L). gives [1,1,2]; without the \\+ guard the call never terminates", F.where(ex[0]))
